@@ -269,6 +269,10 @@ FILE_TEXTS = [
     "*=0x008000\nplayer_sprite_animation_frame_counter_low_byte = 0x7e0100\nlda.l player_sprite_animation_frame_counter_low_byte\n",
     "*=0x008000\n.scope engine_subsystem_for_sprites {\na_label_that_is_much_longer_than_thirty_two_characters:\nrts\n}\njsr.w engine_subsystem_for_sprites.a_label_that_is_much_longer_than_thirty_two_characters\n",
     "*=0x008000\n" + "x" * 300 + ":\n.dw " + "x" * 300 + "\n",
+    # a loop body that assigns its own variable again; characters some line splitters take for line ends inside comments, with ; comments after
+    "*=0x008000\n.for i := 0, 8 {\ni := i & 3\n.db i\n}\n", "*=0x008000\n.for i := 0, 4 {\ni := 0\n.db i\n}\n", "*=0x008000\n.for i := 2, 6 {\n.for i := 0, 2 {\n.db i\n}\n}\n",
+    "/* page\x0cbreak */\nlda.b #0x01 ; volume\nrts ; end\n", "/* a\x0bb\x1cc\x1dd\x1ee\x85f\u2028g\u2029h */\nnop ; one\nnop ; two\n; three\n", "; lone\rreturn\nnop ; x\n; y\n",
+    "/* x */ ; c\x0c d\nnop ; e\n/* \x0c\x0c */\n; f\n; g\n",
     # files named through the parent directory (a binary kept beside or above the project), through . and through dir/..
     ".incbin '../up_c15.bin'\n", "*=0x008000\nlda.w up_c15_bin\n.incbin '../up_c15.bin'\nrts\n", ".incbin '../../up2_c15.bin'\n", ".incbin './exists_c15.s'\n", ".incbin 'sub_c15/../exists_c15.s'\n",
     ".incbin '..'\n", ".incbin '../'\n", ".include '../up_c15.s'\n", ".table '../up_c15.tbl'\n.text 'AB'\n", ".include_ips '../up_c15.ips', 0\n", ".incbin '.../x'\n", ".incbin '..up_c15.bin'\n",
